@@ -84,7 +84,7 @@ func (f LeveldbDiskStorage) Open(tbl *btapb.Table) Rows {
 // SetTableMeta persists metadata about a table.
 func (f LeveldbDiskStorage) SetTableMeta(tbl *btapb.Table) {
 	path := filepath.Join(f.Root, tbl.Name)
-	if err := os.MkdirAll(path, 0777); err != nil {
+	if err := fsMkdirAll(path, 0777); err != nil {
 		f.errLog(err, "os.MkdirAll %q", path)
 	}
 	buf, err := proto.Marshal(tbl)
@@ -94,12 +94,12 @@ func (f LeveldbDiskStorage) SetTableMeta(tbl *btapb.Table) {
 
 	outPath := filepath.Join(path + ".table.proto")
 	tmpPath := filepath.Join(path + ".table.proto.tmp")
-	if err := os.WriteFile(tmpPath, buf, 0666); err != nil {
+	if err := fsWriteFile(tmpPath, buf, 0666); err != nil {
 		f.errLog(err, "ioutil.WriteFile %q", tmpPath)
 		return
 	}
 
-	if err := os.Rename(tmpPath, outPath); err != nil {
+	if err := fsRename(tmpPath, outPath); err != nil {
 		f.errLog(err, "os.Rename %q -> %q", tmpPath, outPath)
 		return
 	}
@@ -115,10 +115,10 @@ var _ Storage = LeveldbDiskStorage{}
 
 func newDiskDb(path string, nuke bool) *leveldb.DB {
 	if nuke {
-		_ = os.RemoveAll(path)
+		_ = fsRemoveAll(path)
 	}
 
-	db, err := leveldb.OpenFile(path, &opt.Options{
+	db, err := openDiskLeveldb(path, &opt.Options{
 		Comparer:                     comparer.DefaultComparer,
 		Compression:                  opt.NoCompression,
 		DisableBufferPool:            true,
@@ -127,5 +127,6 @@ func newDiskDb(path string, nuke bool) *leveldb.DB {
 	if err != nil {
 		panic(err)
 	}
+	simYield("disk.opened")
 	return db
 }
